@@ -71,8 +71,8 @@ def check(ctx):
                "otherwise the bounds of this property are computed from lost values - shared rule with C10")
 
     def faithful(o):
-        from . import c10
-        c10._fields(ctx, o)
+        from .clone_common import clone_provenance
+        clone_provenance(ctx, o, ('fields',))
     ctx.guarded(o, faithful)
 
     # the schedulers start their search at IResource.get_nearest_availability_date: its shape is C17's obligation, reused here
